@@ -280,4 +280,12 @@ theorem reuse_eq_create {opts : List Opt} {g0 g : G} (h : create opts = some g0)
     simp [reuse, hg]
   · cases h
 
+/-- `esl_opt_GetArg(g, n+1)` is the `n`-th element of `argv[optind..]` -/
+theorem getArg_drop (g : G) (n : Nat) : getArg g ((n : Int) + 1) = (g.argv.drop g.optind)[n]? := by
+  rw [getArg_spec]
+  by_cases h : g.optind + n < g.argc
+  · simp [h, List.getElem?_drop]
+  · have : g.argv.length ≤ g.optind + n := by simpa [G.argc] using h
+    simp [h, List.getElem?_drop, List.getElem?_eq_none this]
+
 end EaselModel.Getopts
